@@ -28,7 +28,7 @@ fn buf(b: &mut Bytes) -> BufKind {
     }
 }
 
-fuzz_target!(init: { rio_verif::engine::install_panic_hook(); }, |data: &[u8]| {
+fuzz_target!(init: { rio_verif::engine::install_panic_hook(); rio_verif::ffi::install_log_callback(); }, |data: &[u8]| {
     let mut b = Bytes::new(data);
     let mut ops = Vec::new();
     while !b.done() && ops.len() < 40 {
